@@ -224,8 +224,8 @@ pub open spec fn draw_post(state: StateView, info: SampleInfo, init: StateView, 
 {
     let d = info.depth as nat;
     // the draw is a state the integrator produced in this trajectory (or its start)
-    &&& traj.dom().contains(state.idx) && traj[state.idx] == state
-    &&& traj.dom().contains(0) && traj[0] == init
+    &&& has(traj, state.idx) && traj[state.idx] == state
+    &&& has(traj, 0) && traj[0] == init
     // index 0 iff the chain did not move
     &&& (state.idx == 0 ==> state == init)
     &&& -(pow2(d) - 1) <= state.idx <= pow2(d) - 1
